@@ -446,4 +446,146 @@ theorem finish_chan (h : Hdr) (bs shift : Nat) (c : ChanSt) (s : SChan) (buf1 hi
         show blk = List.map (fun v => fixSample h.ftype shift v) blk
         rw [this, List.map_id]
 
+/-! ## the whole-state refinement relation -/
+
+structure Rel (h : Hdr) (st : St) (ss : SSt) : Prop where
+  bs : st.bs = ss.bs
+  shift : st.shift = ss.shift
+  chan : st.chan = ss.chan
+  out : st.out = ss.out
+  chanlt : st.chan < h.nchan
+  bsle : st.bs ≤ h.bs0
+  len : st.chans.length = h.nchan
+  slen : ss.chans.length = h.nchan
+  chans : ∀ i, i < h.nchan → RelChan h (st.chans.getD i default) (ss.chans.getD i default)
+  frame : ss.frame = (st.chans.take st.chan).map (fun c => slice c.buf h.nwrap (h.nwrap + st.bs))
+
+theorem take_succ_set {α : Type} (l : List α) (i : Nat) (x : α) (hi : i < l.length) :
+    (l.set i x).take (i + 1) = l.take i ++ [x] := by
+  rw [List.take_add_one, List.take_set_of_le (Nat.le_refl i), List.getElem?_set_self hi]
+  rfl
+
+theorem take_set_self {α : Type} (l : List α) (i : Nat) (x : α) : (l.set i x).take i = l.take i := by
+  rw [List.take_set_of_le (Nat.le_refl i)]
+
+theorem getD_set {α : Type} (l : List α) (i j : Nat) (x d : α) :
+    (l.set i x).getD j d = if i = j ∧ i < l.length then x else l.getD j d := by
+  simp only [List.getD_eq_getElem?_getD, List.getElem?_set]
+  by_cases hij : i = j
+  · subst hij
+    by_cases hl : i < l.length
+    · simp [hl]
+    · simp [hl]
+  · simp [hij]
+
+theorem finish_rel {h : Hdr} {convert : Bool} {st : St} {ss : SSt} (hrel : Rel h st ss) (buf1 hist' : List Int)
+    (hp : BlockPost h.nwrap st.bs (st.chans.getD st.chan default).buf buf1 hist') :
+    Rel h (finishBlock h convert st (st.chans.getD st.chan default).off buf1) (semFinish h convert ss hist') := by
+  have hc := hrel.chans st.chan hrel.chanlt
+  obtain ⟨e1, hrc, e3⟩ := finish_chan h st.bs st.shift _ _ buf1 hist' hc hp hrel.bsle
+  have hcl : st.chan < st.chans.length := by rw [hrel.len]; exact hrel.chanlt
+  have hscl : ss.chan < ss.chans.length := by rw [hrel.slen, ← hrel.chan]; exact hrel.chanlt
+  unfold finishBlock semFinish
+  rw [← hrel.bs, ← hrel.shift, ← hrel.chan]
+  by_cases hlast : st.chan + 1 = h.nchan
+  · -- last channel of the frame: interleave
+    have hmod : (st.chan + 1) % h.nchan = 0 := by rw [hlast]; exact Nat.mod_self _
+    simp only [hlast, if_true]
+    have hrows : (st.chans.set st.chan
+        ⟨fixBuf h st.shift st.bs (wrapBuf h.nwrap st.bs buf1),
+          meanUpdate h st.bs st.shift (st.chans.getD st.chan default).off buf1⟩).map
+          (fun c => slice c.buf h.nwrap (h.nwrap + st.bs))
+        = ss.frame ++ [((hist'.take st.bs).reverse).map (fixSample h.ftype st.shift)] := by
+      have hl : (st.chans.set st.chan
+          ⟨fixBuf h st.shift st.bs (wrapBuf h.nwrap st.bs buf1),
+            meanUpdate h st.bs st.shift (st.chans.getD st.chan default).off buf1⟩).length = st.chan + 1 := by
+        rw [List.length_set, hrel.len]; exact hlast.symm
+      rw [← List.take_of_length_le (Nat.le_of_eq hl), take_succ_set _ _ _ hcl, List.map_append, hrel.frame]
+      simp [e3]
+    refine ⟨rfl, rfl, ?_, ?_, ?_, hrel.bsle, ?_, ?_, ?_, ?_⟩
+    · simp
+    · simp only [hrows, hrel.out]
+    · simp; omega
+    · simp; exact hrel.len
+    · simp; exact hrel.slen
+    · intro i hi
+      simp only [getD_set, hcl, hrel.chan ▸ hscl, and_true]
+      by_cases hic : st.chan = i
+      · simp only [hic, if_true]
+        rw [← hic]
+        exact hrc
+      · simp only [hic, if_false]
+        exact hrel.chans i hi
+    · simp
+  · have hlt : st.chan + 1 < h.nchan := by have := hrel.chanlt; omega
+    have hmod : (st.chan + 1) % h.nchan = st.chan + 1 := Nat.mod_eq_of_lt hlt
+    simp only [hlast, if_false]
+    refine ⟨rfl, rfl, ?_, hrel.out, ?_, hrel.bsle, ?_, ?_, ?_, ?_⟩
+    · simp [hmod]
+    · simp [hmod]; exact hlt
+    · simp; exact hrel.len
+    · simp; exact hrel.slen
+    · intro i hi
+      simp only [getD_set, hcl, hrel.chan ▸ hscl, and_true]
+      by_cases hic : st.chan = i
+      · simp only [hic, if_true]
+        rw [← hic]
+        exact hrc
+      · simp only [hic, if_false]
+        exact hrel.chans i hi
+    · simp only [hmod]
+      rw [take_succ_set _ _ _ hcl, List.map_append, hrel.frame]
+      simp [e3]
+
+/-! ## one block command, decoder against specification -/
+
+theorem diffCode_ne_zero (k : Nat) : diffCode k ≠ FN_ZERO := by
+  unfold diffCode
+  split <;> decide
+
+theorem decodeBlock_diff (h : Hdr) (k resn : Nat) (coff : Int) (bs : Nat) (buf : List Int) :
+    ∃ chk, decodeBlock h (diffCode k) resn coff bs buf =
+      (resLoop resn chk (predDiff k coff) (fun _ => true) bs (slice buf 0 h.nwrap).reverse >>=
+        fun acc => pure (setSlice buf 0 acc.reverse)) := by
+  match k with
+  | 0 => exact ⟨decide (h.nmean = 0), by simp [decodeBlock, diffCode, FN_DIFF0, FN_ZERO]⟩
+  | 1 => exact ⟨true, by simp [decodeBlock, diffCode, FN_DIFF0, FN_DIFF1, FN_ZERO]⟩
+  | 2 => exact ⟨true, by simp [decodeBlock, diffCode, FN_DIFF0, FN_DIFF1, FN_DIFF2, FN_ZERO]⟩
+  | n + 3 =>
+    refine ⟨true, ?_⟩
+    have : predDiff (n + 3) coff = predDiff 3 coff := by funext a; simp [predDiff]
+    rw [this]
+    simp [decodeBlock, diffCode, FN_DIFF0, FN_DIFF1, FN_DIFF2, FN_DIFF3, FN_ZERO]
+
+theorem run_decodeBlock_diff (h : Hdr) (k resn : Nat) (coff : Int) (res buf : List Int) (r : List Bool) :
+    (decodeBlock h (diffCode k) resn coff res.length buf).run uvarGet (res.flatMap (varPut resn) ++ r)
+      = .ok (setSlice buf 0 (runBlock (predDiff k coff) res (slice buf 0 h.nwrap).reverse).reverse, r) := by
+  obtain ⟨chk, e⟩ := decodeBlock_diff h k resn coff res.length buf
+  rw [e, Prog.run_bind_ok uvarGet (run_resLoop _ _ _ _ _ _ _)]
+  rfl
+
+theorem run_decodeBlock_zero (h : Hdr) (resn : Nat) (coff : Int) (bs : Nat) (buf : List Int) (r : List Bool) :
+    (decodeBlock h FN_ZERO resn coff bs buf).run uvarGet r
+      = .ok (setSlice buf h.nwrap (List.replicate bs 0), r) := by
+  simp [decodeBlock]
+
+theorem run_decodeBlock_qlpc (h : Hdr) (resn : Nat) (coff : Int) (coefs res buf : List Int) (r : List Bool)
+    (hn : coefs.length ≤ h.maxnlpc) :
+    (decodeBlock h FN_QLPC resn coff res.length buf).run uvarGet
+        (uvarPut LPCQSIZE coefs.length ++ coefs.flatMap (varPut LPCQUANT) ++ res.flatMap (varPut resn) ++ r)
+      = .ok (setSlice buf 0
+          (let hist := (slice buf 0 h.nwrap).reverse
+           let hist' := (hist.take coefs.length).map (· - coff) ++ hist.drop coefs.length
+           let acc := runBlock (fun a => (lpcSum h.lpcqoffset coefs a) >>> LPCQUANT) res hist'
+           if coff ≠ 0 then (acc.take res.length).map (· + coff) ++ acc.drop res.length else acc).reverse, r) := by
+  have hnot : ¬ coefs.length > h.maxnlpc := by omega
+  simp only [decodeBlock, FN_QLPC, FN_ZERO, FN_DIFF0, FN_DIFF1, FN_DIFF2, FN_DIFF3]
+  simp only [Nat.reduceEqDiff, if_false, List.append_assoc]
+  rw [Prog.run_bind_ok uvarGet (run_uvar_put _ _ _)]
+  simp only [hnot, if_false]
+  rw [Prog.run_bind_ok uvarGet (run_readCoefs _ _)]
+  simp only [Prog.run_bind, Prog.run_check]
+  rw [run_resLoop]
+  rfl
+
 end PdsVerif.Model.Shorten
